@@ -60,10 +60,10 @@ CHECKS = {
         note="trusted: step counting wrappers, program templates; StepBound constants fixed from the corpus maximum with slack; ColangSM's fragment excludes parameters / priorities / named loops (those programs are covered by the recorded corpus only)",
         design_ref="6/C10"),
     "C11": dict(
-        category="translation_validation", engine="Continuation",
-        technique="differential execution of the real interpreter at every cut point (live vs JSON save/restore vs elapsed clean-up age, scripted clock and tie-breaks), outgoing events canonicalised and judged equal by TLC (Continuation.tla); plus the repository's direct-API tests re-run under both transformations",
-        text="Every cut point of seeded histories (external and action events) of generated programs and hand-written programs holding sets, regexes, nested containers and flow/action/event references: the continuation after json_to_state(state_to_json(s)) and after the 5 s clean-up age must produce exactly the live outgoing events (fresh ids up to renaming), and saving must not fail. The repository's own tests/v2_x *_mechanics tests must still pass with a JSON round trip / elapsed age before every event.",
-        note="trusted: id canonicalisation, scripted clock (datetime replaced inside statemachine), cut points only at API boundaries; the product (self-composition) specification of ageing is future ColangSM work, so the level claimed is translation validation, not model checking",
+        category="model_checking", engine="ColangSM",
+        technique="ageing: ColangSM self-composition (S ages at arbitrary points through the Tick action + the clean-up at the start of every call; its twin T never ages) model-checked by TLC for AgeInvisible (same outgoing events, same live state at every step) and NoDangling, every reachable state replayed into the real interpreter with the clock advanced at the Tick positions (drift) and every aged history compared with its un-aged twin in the REAL interpreter; save/restore: differential execution of the real interpreter at every cut point (live vs JSON round trip), outgoing events canonicalised and judged equal by TLC (Continuation.tla); plus the repository's direct-API tests re-run under both transformations",
+        text="Ageing is decided at specification level over all histories <= 3 (thorough 4) with time passing at up to 2 points (directed shared-activation / restart / late-reference / scope / action programs: 3) and bound to the code by replay with zero drift. JSON save/restore is not part of the specification: it is decided by differential execution at every cut point of seeded histories of generated and hand-written programs holding sets, regexes, nested containers and flow/action/event references (the continuation after json_to_state(state_to_json(s)) must produce exactly the live outgoing events, saving must not fail), and by the repository's own tests/v2_x *_mechanics tests under a round trip / elapsed age before every event.",
+        note="trusted: id canonicalisation, scripted clock (datetime replaced inside the statemachine and flows modules), cut points only at API boundaries, ColangSM's fragment decision; the save/restore half is translation-validation strength",
         design_ref="6/C11"),
     "C12": dict(
         category="model_checking", engine="CFG",
